@@ -1,8 +1,35 @@
+/-
+C04 (part `Next`, the search itself) — the model is the code: `dayStart`, `dayMatches` and
+`(*SpecSchedule).Next` of cron/spec.go as TRANSLATED from /repo on this run
+(`KitModel/Generated/CodeC04Search.lean`, written by `harness/cmd/go2lean`: the five `for` loops
+`SpecSchedule_Next_loop1..5`, the region of the label `WRAP` re-entered by every `goto WRAP`, the
+entry `SpecSchedule_Next`) compute exactly what the hand-written model `Kit.CronSpec.next`
+(`KitModel/CronSpec.lean`) computes — so the property theorems of `Props/C04Next.lean` and
+`Props/C04Dst.lean` about `next` (sound, minimal, zero-correct, terminating) are theorems about the
+translated source text (`next_code_post_fixed` below states them on the code for the fixed-offset
+zones), and a change to the Go function changes the definition these theorems are about.
+
+Route: `dayStart`/`dayMatches` (`dayStart_code_eq_model`, `dayMatches_code_eq_model`); each
+translated loop equals the model's loop at EQUAL fuel, outcome by outcome (`loop1..5_code_eq_model`
+with `encLoop`: `.next` ↦ `.brk`, `.wrap` ↦ `.jmp`, `.fuel` ↦ `.nofuel`); a model loop that ended
+does not change with more fuel (`loop_mono`); the label region against `nextFrom` by induction on
+the model's outer fuel (`wrap_code_eq_model`; the translated loops run on the region's remaining
+fuel, the model's on `innerFuel = 200`, hence fuel `≥ outerFuel + innerFuel`); the entry
+(`roundUp_code`, `cNext_eq_cWrap`, `next_code_eq_enc`, `next_code_eq_model`).
+
+Trusted here: the translator, `KitModel/Go/Sem.lean` (Go's int64 wrap-around, `uint64` as
+`BitVec 64`), and the reading of `time.Time` in the translation: an instant is its NANOSECONDS since
+the Unix epoch (unbounded Int), `t.Add(d)` is `t + d`, `t.Nanosecond()` is `t % 10^9`, `After` is
+`>`, one zone throughout; the wall-clock readings and calendar constructors are PARAMETERS of the
+translated functions, instantiated below by the calendar model of `KitModel/CronSpec.lean` for a
+zone `z` (`tYear … tTruncate`). All instants the search visits are whole seconds.
+-/
 import KitModel.CronSpec
 import KitModel.Generated.CodeC04Search
 import KitProofs.Lemmas.CronSpecFixed
 import KitProofs.Lemmas.CronBridge
 import KitProofs.Props.C04NextCode
+import KitProofs.Props.C04Next
 
 namespace Kit.CronSpec.SearchCode
 open Kit.CronSpec Kit.GoSem Kit.CronSpec.Code Kit.Generated.CodeC04Search
@@ -61,6 +88,8 @@ abbrev cDayStart (z : Zone) (n : Int) : Res Int :=
   Kit.Generated.CodeC04Search.dayStart (tYear z) (tMonth z) (tDay z) (tHour z) (tMinute z)
     (tSecond z) (tWeekday z) (tDate z) (tAddDate z) tTruncate n
 
+/-- **The translated `dayStart` is the model's `dayStart`** on every whole-second instant of every
+zone (the two `time.Duration` products do not wrap: `t.Hour()` is in `0..23`). -/
 theorem dayStart_code_eq_model (z : Zone) (t : Int) :
     cDayStart z (1000000000 * t) = .ok (1000000000 * Kit.CronSpec.dayStart z t) := by
   have hh := hour_range z t
@@ -99,6 +128,8 @@ abbrev cDayMatches (z : Zone) (s : Sched) (n : Int) : Res Bool :=
     (tSecond z) (tWeekday z) (tDate z) (tAddDate z) tTruncate
     (BitVec.ofNat 64 s.dom) (BitVec.ofNat 64 s.dow) n
 
+/-- **The translated `dayMatches` is the model's `dayMatches`** on every whole-second instant of
+every zone; the only hypotheses are that the two bit sets are `uint64`s. -/
 theorem dayMatches_code_eq_model (s : Sched) (z : Zone) (t : Int)
     (hd : s.dom < 2 ^ 64) (hw : s.dow < 2 ^ 64) :
     cDayMatches z s (1000000000 * t) = .ok (Kit.CronSpec.dayMatches s z t) := by
@@ -139,6 +170,8 @@ abbrev cLoop5 (fuel : Nat) (n : Int) (added : Bool) :=
     (BitVec.ofNat 64 s.minute) (BitVec.ofNat 64 s.hour) (BitVec.ofNat 64 s.dom)
     (BitVec.ofNat 64 s.month) (BitVec.ofNat 64 s.dow) () n () () added yl
 
+/-- **The translated second loop is the model's `secondLoop`**, at equal fuel, from every whole-second
+instant, for both values of `added`: same outcome (`encLoop`), same carried `(t, added)`. -/
 theorem loop5_code_eq_model (hs : s.second < 2 ^ 64) (f : Nat) : ∀ (t : Int) (a : Bool),
     cLoop5 z b s yl f (1000000000 * t) a = encLoop (secondLoop s z f t a) := by
   induction f with
@@ -176,6 +209,8 @@ abbrev cLoop4 (fuel : Nat) (n : Int) (added : Bool) :=
     (BitVec.ofNat 64 s.minute) (BitVec.ofNat 64 s.hour) (BitVec.ofNat 64 s.dom)
     (BitVec.ofNat 64 s.month) (BitVec.ofNat 64 s.dow) () n () () added yl
 
+/-- **The translated minute loop is the model's `minuteLoop`**, at equal fuel, from every whole-second
+instant, for both values of `added`: same outcome (`encLoop`), same carried `(t, added)`. -/
 theorem loop4_code_eq_model (hs : s.minute < 2 ^ 64) (f : Nat) : ∀ (t : Int) (a : Bool),
     cLoop4 z b s yl f (1000000000 * t) a = encLoop (minuteLoop s z f t a) := by
   induction f with
@@ -213,6 +248,8 @@ abbrev cLoop3 (fuel : Nat) (n : Int) (added : Bool) :=
     (BitVec.ofNat 64 s.minute) (BitVec.ofNat 64 s.hour) (BitVec.ofNat 64 s.dom)
     (BitVec.ofNat 64 s.month) (BitVec.ofNat 64 s.dow) () n () () added yl
 
+/-- **The translated hour loop is the model's `hourLoop`**, at equal fuel, from every whole-second
+instant, for both values of `added`: same outcome (`encLoop`), same carried `(t, added)`. -/
 theorem loop3_code_eq_model (hs : s.hour < 2 ^ 64) (f : Nat) : ∀ (t : Int) (a : Bool),
     cLoop3 z b s yl f (1000000000 * t) a = encLoop (hourLoop s z f t a) := by
   induction f with
@@ -259,18 +296,8 @@ abbrev cLoop2 (fuel : Nat) (n : Int) (added : Bool) :=
     (BitVec.ofNat 64 s.minute) (BitVec.ofNat 64 s.hour) (BitVec.ofNat 64 s.dom)
     (BitVec.ofNat 64 s.month) (BitVec.ofNat 64 s.dow) () n () () added yl
 
-/-- The body of the day loop after the reset: `dayStart(t.AddDate(0,0,1))`, or two days ahead. -/
-theorem dayInc_ns (t : Int) :
-    (if 1000000000 * t < 1000000000 * Kit.CronSpec.dayStart z (addDate z t 0 0 1)
-      then 1000000000 * Kit.CronSpec.dayStart z (addDate z t 0 0 1)
-      else 1000000000 * Kit.CronSpec.dayStart z (addDate z t 0 0 2)) = 1000000000 * dayInc z t := by
-  unfold dayInc
-  by_cases h : t < Kit.CronSpec.dayStart z (addDate z t 0 0 1)
-  · have : 1000000000 * t < 1000000000 * Kit.CronSpec.dayStart z (addDate z t 0 0 1) := by omega
-    simp [h, this]
-  · have : ¬ 1000000000 * t < 1000000000 * Kit.CronSpec.dayStart z (addDate z t 0 0 1) := by omega
-    simp [h, this]
-
+/-- **The translated day loop is the model's `dayLoop`**, at equal fuel, from every whole-second
+instant, for both values of `added`: same outcome (`encLoop`), same carried `(t, added)`. -/
 theorem loop2_code_eq_model (hd : s.dom < 2 ^ 64) (hw : s.dow < 2 ^ 64) (f : Nat) :
     ∀ (t : Int) (a : Bool),
     cLoop2 z b s yl f (1000000000 * t) a = encLoop (dayLoop s z f t a) := by
@@ -305,15 +332,19 @@ theorem loop2_code_eq_model (hd : s.dom < 2 ^ 64) (hw : s.dow < 2 ^ 64) (f : Nat
             else dayLoop s z f (dayInc z t1) true) := by
         intro t1
         simp only [tAddDate_ns, dayStart_code_eq_model]
-        rw [← dayInc_ns]
-        by_cases h : 1000000000 * t1 < 1000000000 * Kit.CronSpec.dayStart z (addDate z t1 0 0 1)
-        · simp only [h, gt_iff_lt, decide_true, Bool.not_true, Bool.false_eq_true, ↓reduceIte,
+        unfold dayInc
+        by_cases h0 : t1 < Kit.CronSpec.dayStart z (addDate z t1 0 0 1)
+        · have h : 1000000000 * t1 < 1000000000 * Kit.CronSpec.dayStart z (addDate z t1 0 0 1) := by
+            omega
+          simp only [h, h0, decide_true, Bool.not_true, Bool.false_eq_true, ↓reduceIte,
             tDay_ns]
           by_cases hw1 : day z (Kit.CronSpec.dayStart z (addDate z t1 0 0 1)) = 1
           · simp [hw1, encLoop]
           · simp only [hw1, beq_iff_eq, ↓reduceIte]
             exact ih _ _
-        · simp only [h, gt_iff_lt, decide_false, Bool.not_false, ↓reduceIte, tDay_ns]
+        · have h : ¬ 1000000000 * t1 < 1000000000 * Kit.CronSpec.dayStart z (addDate z t1 0 0 1) := by
+            omega
+          simp only [h, h0, decide_false, Bool.not_false, ↓reduceIte, tDay_ns]
           by_cases hw1 : day z (Kit.CronSpec.dayStart z (addDate z t1 0 0 2)) = 1
           · simp [hw1, encLoop]
           · simp only [hw1, beq_iff_eq, ↓reduceIte]
@@ -321,9 +352,9 @@ theorem loop2_code_eq_model (hd : s.dom < 2 ^ 64) (hw : s.dow < 2 ^ 64) (f : Nat
       unfold cLoop2 cDayStart at key
       cases a
       · simp only [Bool.not_false, ↓reduceIte, Bool.false_eq_true, tDate, tYear_ns, tMonth_ns,
-          tDay_ns]
+          tDay_ns, decide_eq_true_eq]
         exact key _
-      · simp only [Bool.not_true, ↓reduceIte, Bool.false_eq_true]
+      · simp only [Bool.not_true, ↓reduceIte, Bool.false_eq_true, decide_eq_true_eq]
         exact key _
     · simp [encLoop]
 
@@ -333,6 +364,8 @@ abbrev cLoop1 (fuel : Nat) (n : Int) (added : Bool) :=
     (BitVec.ofNat 64 s.minute) (BitVec.ofNat 64 s.hour) (BitVec.ofNat 64 s.dom)
     (BitVec.ofNat 64 s.month) (BitVec.ofNat 64 s.dow) () n () () added yl
 
+/-- **The translated month loop is the model's `monthLoop`**, at equal fuel, from every whole-second
+instant, for both values of `added`: same outcome (`encLoop`), same carried `(t, added)`. -/
 theorem loop1_code_eq_model (hs : s.month < 2 ^ 64) (f : Nat) : ∀ (t : Int) (a : Bool),
     cLoop1 z b s yl f (1000000000 * t) a = encLoop (monthLoop s z f t a) := by
   induction f with
@@ -366,12 +399,468 @@ theorem loop1_code_eq_model (hs : s.month < 2 ^ 64) (f : Nat) : ∀ (t : Int) (a
       cases a
       · have hds := dayStart_code_eq_model z (goDate z (year z t) (month z t) 1 0 0 0)
         unfold cDayStart at hds
-        simp only [Bool.not_false, ↓reduceIte, Bool.false_eq_true, tDate, tYear_ns, tMonth_ns, hds]
+        simp only [Bool.not_false, ↓reduceIte, Bool.false_eq_true, tDate, tYear_ns, hds,
+          decide_eq_true_eq]
         exact key _
-      · simp only [Bool.not_true, ↓reduceIte, Bool.false_eq_true]
+      · simp only [Bool.not_true, ↓reduceIte, Bool.false_eq_true, decide_eq_true_eq]
         exact key _
     · simp [encLoop]
 
 end loops
+
+/-! ### more fuel does not change a model loop that ended -/
+
+theorem loop_mono (ok : Int → Bool) (reset inc : Int → Int) (wrapped : Int → Int → Bool) :
+    ∀ (f : Nat) (t : Int) (a : Bool), loop ok reset inc wrapped f t a ≠ .fuel →
+      ∀ F, f ≤ F → loop ok reset inc wrapped F t a = loop ok reset inc wrapped f t a := by
+  intro f
+  induction f with
+  | zero => intro t a h; exact absurd rfl h
+  | succ f ih =>
+    intro t a h F hF
+    obtain ⟨F', rfl⟩ : ∃ F', F = F' + 1 := ⟨F - 1, by omega⟩
+    simp only [loop] at h ⊢
+    by_cases hok : ok t = true
+    · simp only [hok, ↓reduceIte]
+    · simp only [hok, Bool.false_eq_true, ↓reduceIte] at h ⊢
+      generalize (if a = true then t else reset t) = t1 at h ⊢
+      by_cases hwr : wrapped t1 (inc t1) = true
+      · simp only [hwr, ↓reduceIte]
+      · simp only [hwr, Bool.false_eq_true, ↓reduceIte] at h ⊢
+        exact ih _ _ h F' (by omega)
+
+/-! ### one pass and the region of the label `WRAP` -/
+
+/-- How a model result reads as the translated function's result. -/
+def encResult : Result → Res Int
+  | .at r => .ok (1000000000 * r)
+  | .zero => .ok (-62135596800000000000)
+  | .fuel => .nofuel
+
+/-- What the translated code does with a loop's outcome: propagate, re-enter `WRAP`, or go on. -/
+def cBind (r : Res (LoopOutJ Int (Int × Bool))) (jmp brk : Int → Bool → Res Int) : Res Int :=
+  match r with
+  | .panic m => .panic m
+  | .nofuel => .nofuel
+  | .ok (.ret v) => .ok v
+  | .ok (.jmp (t, a)) => jmp t a
+  | .ok (.brk (t, a)) => brk t a
+
+/-- What the model does with a pass's outcome (the `match` of `nextFrom`). -/
+def fin (s : Sched) (z : Zone) (yl : Int) (f : Nat) : PassOut → Result
+  | .fuel => .fuel
+  | .wrap t a => nextFrom s z yl f t a
+  | .done r => .at r
+
+theorem nextFrom_succ (s : Sched) (z : Zone) (yl : Int) (f : Nat) (t : Int) (a : Bool) :
+    nextFrom s z yl (f + 1) t a =
+      if year z t > yl then .zero else fin s z yl f (pass s z t a) := by
+  simp only [nextFrom]
+  split
+  · rfl
+  · unfold fin; split <;> simp_all
+
+theorem bind_sim (r : Res (LoopOutJ Int (Int × Bool))) (o : LoopOut) (k : Int → Bool → PassOut)
+    (jmp brk : Int → Bool → Res Int) (fn : PassOut → Result) (hfuel : fn .fuel = .fuel)
+    (hr : o ≠ .fuel → r = encLoop o)
+    (hj : ∀ t a, fn (.wrap t a) ≠ .fuel → jmp (1000000000 * t) a = encResult (fn (.wrap t a)))
+    (hb : ∀ t a, fn (k t a) ≠ .fuel → brk (1000000000 * t) a = encResult (fn (k t a)))
+    (h : fn (o.andThen k) ≠ .fuel) : cBind r jmp brk = encResult (fn (o.andThen k)) := by
+  cases o with
+  | fuel => exact absurd hfuel h
+  | wrap t a =>
+    rw [hr (by intro h; cases h)]
+    exact hj t a h
+  | next t a =>
+    rw [hr (by intro h; cases h)]
+    exact hb t a h
+
+section wrap
+variable (z : Zone) (b : Bool) (s : Sched) (yl : Int)
+
+abbrev cWrap (fuel : Nat) (n : Int) (added : Bool) : Res Int :=
+  SpecSchedule_Next_WRAP fuel (tYear z) (tMonth z) (tDay z) (tHour z) (tMinute z) (tSecond z)
+    (tWeekday z) (tDate z) (tAddDate z) tTruncate b (BitVec.ofNat 64 s.second)
+    (BitVec.ofNat 64 s.minute) (BitVec.ofNat 64 s.hour) (BitVec.ofNat 64 s.dom)
+    (BitVec.ofNat 64 s.month) (BitVec.ofNat 64 s.dow) () n () () added yl
+
+/-- The region of the label `WRAP` with one unit of fuel consumed, in terms of `cBind`. -/
+theorem cWrap_succ (F : Nat) (n : Int) (a : Bool) :
+    cWrap z b s yl (F + 1) n a =
+      if decide (tYear z n > yl) then .ok (-62135596800000000000)
+      else
+        cBind (cLoop1 z b s yl F n a) (cWrap z b s yl F) fun n a =>
+        cBind (cLoop2 z b s yl F n a) (cWrap z b s yl F) fun n a =>
+        cBind (cLoop3 z b s yl F n a) (cWrap z b s yl F) fun n a =>
+        cBind (cLoop4 z b s yl F n a) (cWrap z b s yl F) fun n a =>
+        cBind (cLoop5 z b s yl F n a) (cWrap z b s yl F) fun n _ => .ok n := by
+  unfold cWrap
+  rw [SpecSchedule_Next_WRAP]
+  rfl
+
+/-- **The region of the label `WRAP` is the model's `nextFrom`**: whenever the model with outer fuel
+`f` ends (`.at`/`.zero`), the translated region with any fuel `≥ f + innerFuel` gives the same
+answer — every `goto WRAP` (from any of the five loops, `LoopOutJ.jmp`) is one recursive call of
+`nextFrom`, with the same `(t, added)`. -/
+theorem wrap_code_eq_model (h1 : s.second < 2 ^ 64) (h2 : s.minute < 2 ^ 64) (h3 : s.hour < 2 ^ 64)
+    (h4 : s.dom < 2 ^ 64) (h5 : s.month < 2 ^ 64) (h6 : s.dow < 2 ^ 64) (f : Nat) :
+    ∀ (t : Int) (a : Bool) (F : Nat), f + innerFuel ≤ F → nextFrom s z yl f t a ≠ .fuel →
+      cWrap z b s yl F (1000000000 * t) a = encResult (nextFrom s z yl f t a) := by
+  induction f with
+  | zero => intro t a F _ h; exact absurd rfl h
+  | succ f ih =>
+    intro t a F hF h
+    obtain ⟨F', rfl⟩ : ∃ F', F = F' + 1 := ⟨F - 1, by omega⟩
+    have hF' : f + innerFuel ≤ F' := by omega
+    have hI : innerFuel ≤ F' := by omega
+    rw [cWrap_succ, tYear_ns]
+    rw [nextFrom_succ] at h ⊢
+    by_cases hy : year z t > yl
+    · simp only [hy, decide_true, ↓reduceIte]; rfl
+    · simp only [hy, decide_false, Bool.false_eq_true, ↓reduceIte] at h ⊢
+      have hj : ∀ t a, fin s z yl f (.wrap t a) ≠ .fuel →
+          cWrap z b s yl F' (1000000000 * t) a = encResult (fin s z yl f (.wrap t a)) :=
+        fun t a hne => ih t a F' hF' hne
+      unfold pass at h ⊢
+      refine bind_sim _ _ _ _ _ _ rfl ?_ hj ?_ h
+      · intro hne
+        rw [loop1_code_eq_model z b s yl h5 F' t a]
+        unfold monthLoop at hne ⊢
+        rw [loop_mono _ _ _ _ _ _ _ hne F' hI]
+      intro t a h
+      refine bind_sim _ _ _ _ _ _ rfl ?_ hj ?_ h
+      · intro hne
+        rw [loop2_code_eq_model z b s yl h4 h6 F' t a]
+        unfold dayLoop at hne ⊢
+        rw [loop_mono _ _ _ _ _ _ _ hne F' hI]
+      intro t a h
+      refine bind_sim _ _ _ _ _ _ rfl ?_ hj ?_ h
+      · intro hne
+        rw [loop3_code_eq_model z b s yl h3 F' t a]
+        unfold hourLoop at hne ⊢
+        rw [loop_mono _ _ _ _ _ _ _ hne F' hI]
+      intro t a h
+      refine bind_sim _ _ _ _ _ _ rfl ?_ hj ?_ h
+      · intro hne
+        rw [loop4_code_eq_model z b s yl h2 F' t a]
+        unfold minuteLoop at hne ⊢
+        rw [loop_mono _ _ _ _ _ _ _ hne F' hI]
+      intro t a h
+      refine bind_sim _ _ _ _ _ _ rfl ?_ hj ?_ h
+      · intro hne
+        rw [loop5_code_eq_model z b s yl h1 F' t a]
+        unfold secondLoop at hne ⊢
+        rw [loop_mono _ _ _ _ _ _ _ hne F' hI]
+      intro t a _
+      rfl
+
+end wrap
+
+/-! ### the entry `(*SpecSchedule).Next` -/
+
+abbrev cNext (z : Zone) (b : Bool) (s : Sched) (fuel : Nat) (tn : Int) : Res Int :=
+  SpecSchedule_Next fuel (tYear z) (tMonth z) (tDay z) (tHour z) (tMinute z) (tSecond z)
+    (tWeekday z) (tDate z) (tAddDate z) tTruncate b (BitVec.ofNat 64 s.second)
+    (BitVec.ofNat 64 s.minute) (BitVec.ofNat 64 s.hour) (BitVec.ofNat 64 s.dom)
+    (BitVec.ofNat 64 s.month) (BitVec.ofNat 64 s.dow) () tn
+
+/-- `t.Add(1*time.Second - time.Duration(t.Nanosecond())*time.Nanosecond)` lands on the whole
+second `roundUp tn`, for every instant (no wrap: the duration is in `1..10^9`). -/
+theorem roundUp_code (tn : Int) :
+    tn + wrapI64 (1000000000 - wrapI64 (tn % 1000000000 * 1)) = 1000000000 * roundUp tn := by
+  have h1 : 0 ≤ tn % 1000000000 := Int.emod_nonneg _ (by decide)
+  have h2 : tn % 1000000000 < 1000000000 := Int.emod_lt_of_pos _ (by decide)
+  rw [Int.mul_one, wrapI64_of_in (x := tn % 1000000000) (by unfold InI64; omega),
+    wrapI64_of_in (by unfold InI64; omega)]
+  unfold roundUp
+  omega
+
+/-- The entry is the label region entered at the rounded-up instant with `added = false` and
+`yearLimit = int(t.Year() + 5)` (wrapped to 64 bits), whatever `s.Location == time.Local` says. -/
+theorem cNext_eq_cWrap (z : Zone) (b : Bool) (s : Sched) (fuel : Nat) (tn : Int) :
+    cNext z b s fuel tn =
+      cWrap z b s (wrapI64 (year z (roundUp tn) + 5)) fuel (1000000000 * roundUp tn) false := by
+  unfold cNext cWrap SpecSchedule_Next
+  cases b <;> simp only [roundUp_code, tYear_ns] <;> rfl
+
+/-- **The translated `(*SpecSchedule).Next` is `Kit.CronSpec.next`** (as `encResult` reads the
+model's answer: `.at r` ↦ the nanosecond instant `10^9 * r`, `.zero` ↦ the zero `time.Time`).
+Hypotheses: the six sets are `uint64`s; `t.Year() + 5` at the rounded-up instant is an `int`
+(the code computes `yearLimit` in 64 bits, the model in ℤ — see `yearLimit_wraps`); the model's own
+loop bounds were not exhausted (`next_terminates`, `next_dst_*` show they are not for the zone
+classes the C04 theorems cover); the fuel is at least `outerFuel + innerFuel`. Both values of
+`s.Location == time.Local` (`b`). -/
+theorem next_code_eq_enc (s : Sched) (z : Zone) (tn : Int) (b : Bool)
+    (h1 : s.second < 2 ^ 64) (h2 : s.minute < 2 ^ 64) (h3 : s.hour < 2 ^ 64)
+    (h4 : s.dom < 2 ^ 64) (h5 : s.month < 2 ^ 64) (h6 : s.dow < 2 ^ 64)
+    (hy : InI64 (year z (roundUp tn) + 5)) (hne : next s z tn ≠ .fuel)
+    (fuel : Nat) (hf : outerFuel + innerFuel ≤ fuel) :
+    cNext z b s fuel tn = encResult (next s z tn) := by
+  rw [cNext_eq_cWrap, wrapI64_of_in hy]
+  exact wrap_code_eq_model z b s _ h1 h2 h3 h4 h5 h6 outerFuel _ _ fuel hf hne
+
+/-- The statement in the two-clause form, on the translated function spelled out. -/
+theorem next_code_eq_model (s : Sched) (z : Zone) (tn : Int) (b : Bool)
+    (h1 : s.second < 2 ^ 64) (h2 : s.minute < 2 ^ 64) (h3 : s.hour < 2 ^ 64)
+    (h4 : s.dom < 2 ^ 64) (h5 : s.month < 2 ^ 64) (h6 : s.dow < 2 ^ 64)
+    (hy : InI64 (year z (roundUp tn) + 5)) (fuel : Nat) (hf : outerFuel + 200 ≤ fuel) :
+    (∀ r, next s z tn = .at r →
+      SpecSchedule_Next fuel (tYear z) (tMonth z) (tDay z) (tHour z) (tMinute z) (tSecond z)
+        (tWeekday z) (tDate z) (tAddDate z) tTruncate b (BitVec.ofNat 64 s.second)
+        (BitVec.ofNat 64 s.minute) (BitVec.ofNat 64 s.hour) (BitVec.ofNat 64 s.dom)
+        (BitVec.ofNat 64 s.month) (BitVec.ofNat 64 s.dow) () tn = .ok (1000000000 * r)) ∧
+    (next s z tn = .zero →
+      SpecSchedule_Next fuel (tYear z) (tMonth z) (tDay z) (tHour z) (tMinute z) (tSecond z)
+        (tWeekday z) (tDate z) (tAddDate z) tTruncate b (BitVec.ofNat 64 s.second)
+        (BitVec.ofNat 64 s.minute) (BitVec.ofNat 64 s.hour) (BitVec.ofNat 64 s.dom)
+        (BitVec.ofNat 64 s.month) (BitVec.ofNat 64 s.dow) () tn = .ok (-62135596800000000000)) := by
+  constructor
+  · intro r hr
+    have := next_code_eq_enc s z tn b h1 h2 h3 h4 h5 h6 hy (by rw [hr]; intro h; cases h) fuel hf
+    rw [hr] at this; exact this
+  · intro hr
+    have := next_code_eq_enc s z tn b h1 h2 h3 h4 h5 h6 hy (by rw [hr]; intro h; cases h) fuel hf
+    rw [hr] at this; exact this
+
+/-! ### no panic, for every reading of the `time.Time` methods
+
+The translation emitted no guard at all: the shift counts are `uint(...)` conversions (a negative
+`int` becomes a count ≥ 2^63, which shifts the 1 out — no panic in Go either), there is no
+division, index or slice expression. So the only `.panic` branches are the propagation arms behind
+the calls of `dayStart` / `dayMatches`, and these two never panic. -/
+
+section nopanic
+variable (T_Year T_Month T_Day T_Hour T_Minute T_Second T_Weekday : Int → Int)
+  (T_Date : Int → Int → Int → Int → Int → Int → Int → Int) (T_AddDate : Int → Int → Int → Int → Int)
+  (T_Truncate : Int → Int → Int) (s_LocIsLocal : Bool)
+  (s_Second s_Minute s_Hour s_Dom s_Month s_Dow : BitVec 64) (s_Location origLocation loc : Unit)
+  (yearLimit : Int)
+
+theorem dayStart_never_panics (t : Int) (msg : String) :
+    Kit.Generated.CodeC04Search.dayStart T_Year T_Month T_Day T_Hour T_Minute T_Second T_Weekday T_Date T_AddDate T_Truncate t ≠ .panic msg := by
+  unfold Kit.Generated.CodeC04Search.dayStart
+  simp only
+  repeat' split
+  all_goals (intro h; cases h)
+
+theorem dayMatches_never_panics (t : Int) (msg : String) :
+    Kit.Generated.CodeC04Search.dayMatches T_Year T_Month T_Day T_Hour T_Minute T_Second T_Weekday T_Date T_AddDate T_Truncate s_Dom s_Dow t ≠ .panic msg := by
+  unfold Kit.Generated.CodeC04Search.dayMatches
+  simp only
+  split <;> (intro h; cases h)
+
+theorem loop1_never_panics (fuel : Nat) : ∀ (t : Int) (added : Bool) (msg : String),
+    SpecSchedule_Next_loop1 fuel T_Year T_Month T_Day T_Hour T_Minute T_Second T_Weekday T_Date T_AddDate T_Truncate s_LocIsLocal s_Second s_Minute s_Hour s_Dom s_Month s_Dow s_Location t origLocation loc added yearLimit ≠ .panic msg := by
+  induction fuel with
+  | zero => intro t added msg h; cases h
+  | succ fuel ih =>
+    intro t added msg
+    rw [SpecSchedule_Next_loop1]
+    simp only
+    repeat' split
+    all_goals first
+      | (intro h; cases h; done)
+      | exact ih _ _ msg
+      | exact absurd ‹_ = Res.panic _› (dayStart_never_panics T_Year T_Month T_Day T_Hour T_Minute T_Second T_Weekday T_Date T_AddDate T_Truncate _ _)
+      | exact absurd ‹_ = Res.panic _› (dayMatches_never_panics T_Year T_Month T_Day T_Hour T_Minute T_Second T_Weekday T_Date T_AddDate T_Truncate _ _ _ _)
+
+theorem loop2_never_panics (fuel : Nat) : ∀ (t : Int) (added : Bool) (msg : String),
+    SpecSchedule_Next_loop2 fuel T_Year T_Month T_Day T_Hour T_Minute T_Second T_Weekday T_Date T_AddDate T_Truncate s_LocIsLocal s_Second s_Minute s_Hour s_Dom s_Month s_Dow s_Location t origLocation loc added yearLimit ≠ .panic msg := by
+  induction fuel with
+  | zero => intro t added msg h; cases h
+  | succ fuel ih =>
+    intro t added msg
+    rw [SpecSchedule_Next_loop2]
+    simp only
+    repeat' split
+    all_goals first
+      | (intro h; cases h; done)
+      | exact ih _ _ msg
+      | exact absurd ‹_ = Res.panic _› (dayStart_never_panics T_Year T_Month T_Day T_Hour T_Minute T_Second T_Weekday T_Date T_AddDate T_Truncate _ _)
+      | exact absurd ‹_ = Res.panic _› (dayMatches_never_panics T_Year T_Month T_Day T_Hour T_Minute T_Second T_Weekday T_Date T_AddDate T_Truncate _ _ _ _)
+
+theorem loop3_never_panics (fuel : Nat) : ∀ (t : Int) (added : Bool) (msg : String),
+    SpecSchedule_Next_loop3 fuel T_Year T_Month T_Day T_Hour T_Minute T_Second T_Weekday T_Date T_AddDate T_Truncate s_LocIsLocal s_Second s_Minute s_Hour s_Dom s_Month s_Dow s_Location t origLocation loc added yearLimit ≠ .panic msg := by
+  induction fuel with
+  | zero => intro t added msg h; cases h
+  | succ fuel ih =>
+    intro t added msg
+    rw [SpecSchedule_Next_loop3]
+    simp only
+    repeat' split
+    all_goals first
+      | (intro h; cases h; done)
+      | exact ih _ _ msg
+      | exact absurd ‹_ = Res.panic _› (dayStart_never_panics T_Year T_Month T_Day T_Hour T_Minute T_Second T_Weekday T_Date T_AddDate T_Truncate _ _)
+      | exact absurd ‹_ = Res.panic _› (dayMatches_never_panics T_Year T_Month T_Day T_Hour T_Minute T_Second T_Weekday T_Date T_AddDate T_Truncate _ _ _ _)
+
+theorem loop4_never_panics (fuel : Nat) : ∀ (t : Int) (added : Bool) (msg : String),
+    SpecSchedule_Next_loop4 fuel T_Year T_Month T_Day T_Hour T_Minute T_Second T_Weekday T_Date T_AddDate T_Truncate s_LocIsLocal s_Second s_Minute s_Hour s_Dom s_Month s_Dow s_Location t origLocation loc added yearLimit ≠ .panic msg := by
+  induction fuel with
+  | zero => intro t added msg h; cases h
+  | succ fuel ih =>
+    intro t added msg
+    rw [SpecSchedule_Next_loop4]
+    simp only
+    repeat' split
+    all_goals first
+      | (intro h; cases h; done)
+      | exact ih _ _ msg
+      | exact absurd ‹_ = Res.panic _› (dayStart_never_panics T_Year T_Month T_Day T_Hour T_Minute T_Second T_Weekday T_Date T_AddDate T_Truncate _ _)
+      | exact absurd ‹_ = Res.panic _› (dayMatches_never_panics T_Year T_Month T_Day T_Hour T_Minute T_Second T_Weekday T_Date T_AddDate T_Truncate _ _ _ _)
+
+theorem loop5_never_panics (fuel : Nat) : ∀ (t : Int) (added : Bool) (msg : String),
+    SpecSchedule_Next_loop5 fuel T_Year T_Month T_Day T_Hour T_Minute T_Second T_Weekday T_Date T_AddDate T_Truncate s_LocIsLocal s_Second s_Minute s_Hour s_Dom s_Month s_Dow s_Location t origLocation loc added yearLimit ≠ .panic msg := by
+  induction fuel with
+  | zero => intro t added msg h; cases h
+  | succ fuel ih =>
+    intro t added msg
+    rw [SpecSchedule_Next_loop5]
+    simp only
+    repeat' split
+    all_goals first
+      | (intro h; cases h; done)
+      | exact ih _ _ msg
+      | exact absurd ‹_ = Res.panic _› (dayStart_never_panics T_Year T_Month T_Day T_Hour T_Minute T_Second T_Weekday T_Date T_AddDate T_Truncate _ _)
+      | exact absurd ‹_ = Res.panic _› (dayMatches_never_panics T_Year T_Month T_Day T_Hour T_Minute T_Second T_Weekday T_Date T_AddDate T_Truncate _ _ _ _)
+
+theorem wrap_never_panics (fuel : Nat) : ∀ (t : Int) (added : Bool) (msg : String),
+    SpecSchedule_Next_WRAP fuel T_Year T_Month T_Day T_Hour T_Minute T_Second T_Weekday T_Date T_AddDate T_Truncate s_LocIsLocal s_Second s_Minute s_Hour s_Dom s_Month s_Dow s_Location t origLocation loc added yearLimit ≠ .panic msg := by
+  induction fuel with
+  | zero => intro t added msg h; cases h
+  | succ fuel ih =>
+    intro t added msg
+    rw [SpecSchedule_Next_WRAP]
+    simp only
+    repeat' split
+    all_goals first
+      | (intro h; cases h; done)
+      | exact ih _ _ msg
+      | exact absurd ‹_ = Res.panic _› (loop1_never_panics T_Year T_Month T_Day T_Hour T_Minute T_Second T_Weekday T_Date T_AddDate T_Truncate s_LocIsLocal s_Second s_Minute s_Hour s_Dom s_Month s_Dow s_Location origLocation loc yearLimit _ _ _ _)
+      | exact absurd ‹_ = Res.panic _› (loop2_never_panics T_Year T_Month T_Day T_Hour T_Minute T_Second T_Weekday T_Date T_AddDate T_Truncate s_LocIsLocal s_Second s_Minute s_Hour s_Dom s_Month s_Dow s_Location origLocation loc yearLimit _ _ _ _)
+      | exact absurd ‹_ = Res.panic _› (loop3_never_panics T_Year T_Month T_Day T_Hour T_Minute T_Second T_Weekday T_Date T_AddDate T_Truncate s_LocIsLocal s_Second s_Minute s_Hour s_Dom s_Month s_Dow s_Location origLocation loc yearLimit _ _ _ _)
+      | exact absurd ‹_ = Res.panic _› (loop4_never_panics T_Year T_Month T_Day T_Hour T_Minute T_Second T_Weekday T_Date T_AddDate T_Truncate s_LocIsLocal s_Second s_Minute s_Hour s_Dom s_Month s_Dow s_Location origLocation loc yearLimit _ _ _ _)
+      | exact absurd ‹_ = Res.panic _› (loop5_never_panics T_Year T_Month T_Day T_Hour T_Minute T_Second T_Weekday T_Date T_AddDate T_Truncate s_LocIsLocal s_Second s_Minute s_Hour s_Dom s_Month s_Dow s_Location origLocation loc yearLimit _ _ _ _)
+
+/-- **`Next` on any schedule never panics** — on the translated text, for EVERY interpretation of
+the `time.Time` methods (`T_*` arbitrary functions, also with negative or absurd readings), every
+six bit sets, every instant, every fuel. Unconditional: no guard was emitted. -/
+theorem next_code_never_panics (fuel : Nat) (t : Int) (msg : String) :
+    SpecSchedule_Next fuel T_Year T_Month T_Day T_Hour T_Minute T_Second T_Weekday T_Date T_AddDate T_Truncate s_LocIsLocal s_Second s_Minute s_Hour s_Dom s_Month s_Dow s_Location t ≠ .panic msg := by
+  unfold SpecSchedule_Next
+  simp only
+  repeat' split
+  all_goals apply wrap_never_panics
+
+end nopanic
+
+/-! ### the hypothesis on the year, and what happens outside it -/
+
+/-- `t.Year() + 5` is an `int` for every day number up to `2^62` either way (about 10^16 years). -/
+theorem civil_year_bound (n : Int) (h1 : -4611686018427387904 ≤ n) (h2 : n ≤ 4611686018427387904) :
+    InI64 ((Kit.CronCal.civilFromDays n).1 + 5) := by
+  unfold InI64 Kit.CronCal.civilFromDays
+  simp only
+  split <;> omega
+
+/-- The year hypothesis of `next_code_eq_model` holds whenever the wall clock at the rounded-up
+instant is within `2^62` seconds of the epoch (±146 billion years; every `time.Time` is: its
+seconds since year 1 are an `int64` and `Year()` an `int` below 3·10^11). -/
+theorem year_inI64 (z : Zone) (u : Int) (h1 : -4611686018427387904 ≤ localSec z u)
+    (h2 : localSec z u ≤ 4611686018427387904) : InI64 (year z u + 5) := by
+  unfold year dayNum
+  exact civil_year_bound _ (by omega) (by omega)
+
+/-- "Every second" with all six sets full. -/
+def allSched : Sched :=
+  ⟨18446744073709551615, 18446744073709551615, 18446744073709551615, 18446744073709551615,
+   18446744073709551615, 18446744073709551615⟩
+
+/-- Outside the year range the translated code and the unbounded model differ: at 1 June of the
+year `MaxInt64 - 2` (UTC) `yearLimit := t.Year() + 5` wraps to `MinInt64 + 2`, the first test
+`t.Year() > yearLimit` succeeds and the code answers the zero time, where the model (year limit
+in ℤ) answers the next second. Not reachable in Go: `time.Time` cannot hold such an instant. -/
+theorem yearLimit_wraps :
+    year (fixedZone 0) (roundUp 291061508645168328894998400000000000) = 9223372036854775805 ∧
+    cNext (fixedZone 0) false allSched (outerFuel + 200) 291061508645168328894998400000000000 =
+      .ok (-62135596800000000000) ∧
+    next allSched (fixedZone 0) 291061508645168328894998400000000000 =
+      .at 291061508645168328894998401 := by
+  decide +kernel
+
+/-! ### the property theorems, on the translated code -/
+
+/-- Soundness, minimality and the zero answer of `Props/C04Next.lean`, read on the translated
+`Next`: on every zone with a constant offset that is a multiple of 60 s, for every schedule, every
+start instant `tn` (nanoseconds) and every fuel `≥ outerFuel + 200`, the translated function
+returns — never `.nofuel`, never `.panic` — either the nanosecond instant of the earliest matching
+whole second after `tn`, or the zero time when nothing matches up to the end of the fifth year. -/
+theorem next_code_post_fixed (s : Sched) (off : Int) (h60 : off % 60 = 0) (tn : Int) (b : Bool)
+    (h1 : s.second < 2 ^ 64) (h2 : s.minute < 2 ^ 64) (h3 : s.hour < 2 ^ 64)
+    (h4 : s.dom < 2 ^ 64) (h5 : s.month < 2 ^ 64) (h6 : s.dow < 2 ^ 64)
+    (hy : InI64 (year (fixedZone off) (roundUp tn) + 5)) (fuel : Nat)
+    (hf : outerFuel + 200 ≤ fuel) :
+    (∃ r, cNext (fixedZone off) b s fuel tn = .ok (1000000000 * r) ∧ tn < 1000000000 * r ∧
+        MatchesN s (fixedZone off) (1000000000 * r) ∧
+        ∀ n, tn < n → n < 1000000000 * r → ¬ MatchesN s (fixedZone off) n) ∨
+    (cNext (fixedZone off) b s fuel tn = .ok (-62135596800000000000) ∧
+        ∀ n, tn < n →
+          year (fixedZone off) (n / 1000000000) ≤ year (fixedZone off) (roundUp tn) + 5 →
+          ¬ MatchesN s (fixedZone off) n) := by
+  have hc := next_code_eq_model s (fixedZone off) tn b h1 h2 h3 h4 h5 h6 hy fuel hf
+  cases hn : next s (fixedZone off) tn with
+  | fuel => exact absurd hn (next_terminates s off h60 tn)
+  | zero => exact Or.inr ⟨hc.2 hn, next_zero_fixed s off h60 tn hn⟩
+  | «at» r =>
+    have hs := next_sound_fixed s off h60 tn r hn
+    have hm := next_minimal_fixed s off h60 tn r hn
+    rw [Int.mul_comm] at hs hm
+    exact Or.inl ⟨r, hc.1 r hn, hs.1, hs.2, hm⟩
+
+/-! ### non-vacuity: the translated `Next` itself, evaluated under the instantiation -/
+
+-- "0 30 4 1,15 * 5" at +05:30 from 2017-07-14T02:40:00.123456789Z (`exSched` of Props/C04Next.lean)
+example : next exSched (fixedZone 19800) 1500000000123456789 = .at 1500073200 := by decide +kernel
+example :
+    cNext (fixedZone 19800) true exSched (outerFuel + 200) 1500000000123456789 =
+      .ok 1500073200000000000 := by decide +kernel
+example :
+    cNext (fixedZone 19800) false exSched (outerFuel + 200) 1500000000123456789 =
+      .ok (1000000000 * 1500073200) := by decide +kernel
+-- UTC (`[(0, 0)]`), the same schedule: Friday 2017-07-14 04:30:00Z
+example : fixedZone 0 = [(0, 0)] := rfl
+example :
+    cNext [(0, 0)] false exSched (outerFuel + 200) 1500000000123456789 =
+      encResult (next exSched [(0, 0)] 1500000000123456789) := by decide +kernel
+example :
+    cNext [(0, 0)] false exSched (outerFuel + 200) 1500000000123456789 = .ok 1500006600000000000 := by
+  decide +kernel
+-- 31 February never comes: the zero time, through `t.Year() > yearLimit` after 5 years of `goto WRAP`
+example :
+    cNext (fixedZone 0) false ⟨1, 1, 1, 2147483648, 4, 0⟩ (outerFuel + 200) 1500000000000000000 =
+      .ok (-62135596800000000000) := by decide +kernel
+-- a zone with transitions (Antarctica/Troll 2017: +0 → +2 on 26 March 01:00Z): "0 30 1 * * *" from
+-- 2017-03-26T00:00:00Z, local 01:30 does not exist that day; code and model agree
+example :
+    cNext [(0, 0), (1490490000, 7200), (1509238800, 0), (1521939600, 7200)] false
+        ⟨1, 1073741824, 2, 9223372041149743102, 8190, 9223372036854775935⟩ (outerFuel + 200)
+        1490486400000000000 =
+      encResult (next ⟨1, 1073741824, 2, 9223372041149743102, 8190, 9223372036854775935⟩
+        [(0, 0), (1490490000, 7200), (1509238800, 0), (1521939600, 7200)] 1490486400000000000) := by
+  decide +kernel
+-- … on local 01:30 of the 27th (2017-03-26T23:30:00Z)
+example :
+    cNext [(0, 0), (1490490000, 7200), (1509238800, 0), (1521939600, 7200)] true
+        ⟨1, 1073741824, 2, 9223372041149743102, 8190, 9223372036854775935⟩ (outerFuel + 200)
+        1490486400000000000 = .ok 1490571000000000000 := by
+  decide +kernel
+-- the hypotheses of `next_code_eq_model` hold for these inputs
+example : InI64 (year (fixedZone 19800) (roundUp 1500000000123456789) + 5) := by decide +kernel
+-- too little fuel is reported as such, not as an answer
+example : cNext (fixedZone 0) false exSched 3 1500000000123456789 = .nofuel := by decide +kernel
+-- the pieces (2017-07-15 is a Saturday and a 15th: either-day rule)
+-- 23:00 is "aimed at midnight": one hour on
+example : cDayStart (fixedZone 0) 1500073200000000000 = .ok 1500076800000000000 := by decide +kernel
+example : cDayMatches (fixedZone 0) exSched 1500093000000000000 = .ok true := by decide +kernel
 
 end Kit.CronSpec.SearchCode
